@@ -41,6 +41,10 @@ def extended_class(cls, variant=0):
         def undocumented(self, n: int = 1) -> int:
             return n
 
+        def rescale(self, f: int, e: int = 0, s: str = "x", el: int = 1) -> int:
+            """Parameters whose names are substrings of 'self'."""
+            return f * 2 + e + el
+
         def lock(self) -> None:        # overrides an inherited public method WITHOUT repeating its docstring
             return super().lock()
 
